@@ -18,7 +18,7 @@ STY_Q = (("eager", 4), ("batched", 3), ("bursty", 2), ("split", 3))
 
 
 def budget(tier):
-    return {"quick": {"runs": 5000, "wall": 150}, "thorough": {"runs": 300000, "wall": 1500}}[tier]
+    return {"quick": {"runs": 5000, "wall": 150}, "thorough": {"runs": 60000, "wall": 900}}[tier]
 
 
 def _mark_synced(ex):
